@@ -9,7 +9,7 @@ import (
 	"verif/checker/ir"
 )
 
-var kvsPkgs = []string{"kvs", "kvs/inmem", "kvs/redis", "ulidutils"}
+var kvsPkgs = []string{"kvs", "kvs/inmem", "kvs/redis", "ulidutils", "cast"}
 
 func init() {
 	register(&Check{
@@ -145,6 +145,28 @@ func (c *Ctx) inmemClassEdges(r *inmemRoles, r1, r2 string) {
 			if sentinel(e.Result(1)) == "ErrConflict" {
 				ok := versionCmp(e, token.NEQ) && presence(e, true)
 				c.Decide(r1, fn, "ErrConflict only for a present record with another version", e.Ret, ok, "CasByVersion reports ErrConflict on a path where no stored record was compared: for a missing key the contract says ErrNotExist")
+				// ... and only for a record that is not expired: an expired record that was not purged yet is a missing key
+				at := ssa.Instruction(e.Ret)
+				if e.Block != e.Ret.Block() && len(e.Block.Instrs) > 0 {
+					at = e.Block.Instrs[len(e.Block.Instrs)-1]
+				}
+				live := true
+				ir.Instrs(fn, func(in ssa.Instruction) {
+					lk := r.recsLookup(in)
+					if lk == nil {
+						return
+					}
+					w, err := (ir.Query{Fn: fn, From: in,
+						BlockEdge: func(from, to *ssa.BasicBlock) bool {
+							k := r.expiryEdge(from, to)
+							return k == freshEdge || k == noExpiryEdge
+						},
+						Target: func(x ssa.Instruction) bool { return x == at }}).Find()
+					if err != nil || w != nil {
+						live = false
+					}
+				})
+				c.Decide(r1, fn, "ErrConflict only after the expiry decision", e.Ret, live, "CasByVersion compares versions (and reports ErrConflict) before it has decided whether the stored record is expired: for an expired record that is still in the table the answer must be ErrNotExist - the redis backend and the contract do not know such a record")
 			}
 		}
 	}
@@ -241,6 +263,8 @@ func runC02(c *Ctx) {
 		return nil
 	})
 	c.everyBatchRecordWritten(im, "C02.R7")
+	c.redisNoSeparateTTL(rd, "C02.R10")
+	c.redisKeysMapped(rd, "C02.R11")
 	c.inmemClassEdges(im, "C02.R5", "")
 	c.redisClassEdges(rd, "C02.R5", "C02.R5")
 	c.R.Floor("C02.R5", 10)
@@ -277,6 +301,7 @@ func runC06(c *Ctx) {
 	c.inmemBoundedPark(im, "C06.R2")
 	c.redisTTL(rd, "C06.R3", "C06.R4", "C06.R5")
 	c.inmemNoSharing(im, "C06.R7")
+	c.redisNoSeparateTTL(rd, "C06.R8")
 }
 
 func runC07(c *Ctx) {
@@ -288,6 +313,9 @@ func runC07(c *Ctx) {
 	c.inmemBoundedPark(im, "C07.W7")
 	c.redisPollBounded(rd, "C07.W8")
 	c.inmemRegistrationBalance(im, "C07.W9")
+	// a change the waiter is to notice is a change of the version: every write stores a fresh one
+	c.inmemFreshVersions(im, "C07.V1")
+	c.redisFreshVersions(rd, "C07.V1")
 	c.R.Floor("C07.W2", 3)
 	c.R.Floor("C07.W3", 2)
 	c.R.Floor("C07.W4", 5)
